@@ -462,7 +462,8 @@ class World:
         val = {"nan": np.nan, "inf": np.inf, "-inf": -np.inf, "complex": complex(1.0, 2.0),
                "vector": np.array([1.0, 2.0]), "none": None, "list": [1.0, 2.0],
                "str": "oops", "npnan": np.float64("nan"), "arr_nan": np.array([np.nan]),
-               "empty": np.array([])}
+               "empty": np.array([]), "complex_tiny": complex(ytrue, 1e-15),
+               "np_complex_tiny": np.complex128(complex(ytrue, -3e-16))}
         if fk.startswith("val:"):
             v = val[fk.split(":", 1)[1]]
             if self.specified:
@@ -471,7 +472,8 @@ class World:
         if fk.startswith("sd:"):
             kind = fk.split(":", 1)[1]
             sdv = {"zero": 0.0, "neg": -1.0, "nan": np.nan, "inf": np.inf, "-inf": -np.inf,
-                   "none": None, "complex": complex(0.5, 1.0), "array": np.array([0.1, 0.2])}[kind]
+                   "none": None, "complex": complex(0.5, 1.0), "array": np.array([0.1, 0.2]),
+                   "complex_tiny": complex(0.5, 1e-15)}[kind]
             return (ytrue, sdv)
         if fk.startswith("form:"):
             kind = fk.split(":", 1)[1]
